@@ -489,6 +489,9 @@ func execC20(t *testing.T, raw json.RawMessage) *sim.Outcome {
 		o.Logf("%s code=%d parked=%v released_in_run=%v", w.who, w.code, w.parked != 0, w.cleanup == 0)
 	}
 	o.Fault("schedule/" + p.Strategy.Kind)
+	for i := 0; i < s.Switches/100; i++ {
+		o.Probe("task_switches_x100")
+	}
 	return o
 }
 
